@@ -429,7 +429,11 @@ class MockIncludeDirective:
         # get required section of text
         startline = self.options.get("start-line", None)
         endline = self.options.get("end-line", None)
-        file_content = "\n".join(file_content.splitlines()[startline:endline])
+        # split at line feeds only: form feeds, U+2028 etc. are content of the file
+        file_lines = file_content.split("\n")
+        if file_lines and not file_lines[-1]:
+            file_lines.pop()
+        file_content = "\n".join(file_lines[startline:endline])
         startline = startline or 0
         for split_on_type in ["start-after", "end-before"]:
             split_on = self.options.get(split_on_type, None)
@@ -460,7 +464,7 @@ class MockIncludeDirective:
                     raise DirectiveError(
                         3, ":number-lines: with non-integer start value"
                     ) from err
-                endline = startline + len(file_content.splitlines())
+                endline = startline + len(file_content.split("\n"))
                 if file_content.endswith("\n"):
                     file_content = file_content[:-1]
                 tokens = NumberLines([([], file_content)], startline, endline)
@@ -480,7 +484,7 @@ class MockIncludeDirective:
                 name=self.name,
                 arguments=[self.options.pop("code")],
                 options=self.options,
-                content=file_content.splitlines(),
+                content=file_content.split("\n"),
                 lineno=self.lineno,
                 content_offset=0,
                 block_text=file_content,
